@@ -145,3 +145,8 @@ fn format_extraction<TCompilationProfile: CompilationProfile>(
 fn push_indented_line_break(output: &mut String, indent: usize) {
     output.push_str(&format!("\n{}", "  ".repeat(indent)));
 }
+
+#[cfg(isographlabs_isograph_verif)]
+pub fn verif_get_range_of_extraction(extraction: &IsoLiteralExtraction, content: &str) -> Range {
+    get_range_of_extraction(extraction, content)
+}
